@@ -1,7 +1,7 @@
 (* C01, netlist level: by induction over the component list, the assembled MNA
    system holds iff KCL holds at every node and every constitutive relation
    holds (uses the per-class lemmas of Gen.C01). *)
-Require Import LT.FieldSec LT.Circuit Gen.StampsGen Gen.C01 Gen.C01model.
+Require Import LT.FieldSec LT.Circuit LT.CircuitLinear Gen.StampsGen Gen.C01 Gen.C01model.
 Local Open Scope Z_scope.
 Local Open Scope bool_scope.
 
@@ -55,7 +55,40 @@ Proof.
   - rewrite Rn by assumption. auto. - rewrite Rb by assumption. auto.
 Qed.
 
+
+(* the reported solution is THE solution: for a well-posed netlist any two
+   vectors that satisfy KCL and all constitutive relations coincide, so the
+   result cannot depend on the linear-solver method *)
+Theorem phys_unique (N : netlist) (T : list (upd K)) (nn mm : Z) (v1 ib1 v2 ib2 : Z -> K) :
+  wf_net N -> assemble N = SOk T -> well_posed T nn mm ->
+  phys N v1 ib1 -> phys N v2 ib2 ->
+  (forall i, 0 <= i < nn -> v1 i = v2 i) /\ (forall j, 0 <= j < mm -> ib1 j = ib2 j).
+Proof.
+  intros W E WP P1 P2. apply (mna_unique K T nn mm v1 ib1 v2 ib2 WP).
+  - apply (mna_iff_phys N T v1 ib1 W E). exact P1.
+  - apply (mna_iff_phys N T v2 ib2 W E). exact P2.
+Qed.
+
+(* non-vacuity: a source driving a resistor (V1 1 0; R1 1 0) is well-formed and well-posed *)
+Definition ex_ctx (cl : cname) (y voc : K) : sctx K :=
+  SCtx K KS TyOtherType 0 (-1) (-1) (-1) (-1) (-1) 0 0 0 0 0 false false false false
+       (fun n => match n with pY => y | pVoc => voc | _ => f0 end).
+Definition ex_net (y voc : K) : netlist := [(cV, ex_ctx cV y voc); (cRC, ex_ctx cRC y voc)].
+Example ex_net_wf y voc : wf_net (ex_net y voc).
+Proof. repeat constructor; cbv [wf_ctx ex_ctx p0 p1 p2 p3 c0 c1 bown bextra bctrl bL1 bL2 snd]; repeat split; lia. Qed.
+Example ex_net_well_posed y voc : exists T, assemble (ex_net y voc) = SOk T /\ well_posed T 1 1.
+Proof.
+  eexists. split; [reflexivity|]. intros v ib [Hn Hb].
+  specialize (Hn 0 ltac:(lia)). specialize (Hb 0 ltac:(lia)).
+  cbv [lin app um uo ur uc uv mname_eqb ind Z.eqb ex_ctx kind typ p0 p1 p2 p3 bown par
+       akind_eqb ctype_eqb andb has_ic guard Z.leb Z.compare] in Hn, Hb.
+  assert (V0 : v 0 = f0) by (rewrite <- Hb; ring).
+  assert (I0 : ib 0 = f0) by (rewrite <- Hn, V0; ring).
+  split; intros i Hi; assert (i = 0) by lia; subst; assumption.
+Qed.
 End C01net.
+Print Assumptions phys_unique.
+
 
 Print Assumptions stamp_of_sem.
 Print Assumptions mna_sem.
